@@ -15,13 +15,24 @@ META = {
                   'is the tree itself), copyH_fresh / copyH_frame on an explicit object heap (no object of the copy is reachable from '
                   'anything allocated before; mutating the copy leaves every older object unchanged), compatible_sound_partial (a passing '
                   'check implies every value of the first value set is accepted by the second type), compatible_complete (the check '
-                  'passes on the nested pairings of the statement), table facts of DATATYPES / exported properties by decide.  Models '
-                  'tied to frappy/datatypes.py by a correspondence run on the real classes; Lean monitors judge every observed rebuild, '
-                  'copy (sharing partition, mutation of every object of the copy) and verdict, with a witness search through the real '
-                  'validate for passing verdicts.',
-    'level_note': 'Partial: compatible_sound excludes relative_resolution > 1 on the second type (hypothesis ResLeOne) and a member that is '
-                  'optional in the first struct and mandatory in the second (recorded finding, counterexample compatible_sound_fails '
-                  'proved) and relative_resolution >= 1 (recorded finding, counterexample compatible_sound_fails_resolution proved). '
+                  'passes on the nested pairings of the statement), compatible_self.  Derived classes (TextType, LimitsType, StatusType, at '
+                  'any depth, on either side): compatibleC_as_described (the verdict is the one of the kinds they are described as), '
+                  'compatibleC_complete, compatibleC_sound_partial, compatible_with_own_description (a datatype and the type rebuilt from its '
+                  'description are compatible both ways), copyC_equiv (the copy validates like the original, LimitsType order test included), '
+                  'rebuildC_equiv_partial.  Commands: compatibleCmd_reduces / compatibleCmd_complete.  Users of compatible(): '
+                  'proxy_own_description_silent, proxy_own_command_silent (the proxy check logs nothing against the own description), '
+                  'writable_same_datatype_ok.  Table facts of DATATYPES / exported properties by decide.  Models '
+                  'tied to frappy/datatypes.py, frappy/proxy.py (_check_descriptive_data) and frappy/modules.py (Writable.__init__) by a '
+                  'correspondence run on the real classes; Lean monitors judge every observed rebuild, '
+                  'copy (sharing partition, mutation of every object of the copy) and verdict (datatypes and commands), with a witness '
+                  'search through the real validate for passing verdicts.',
+    'level_note': 'Partial: compatible_sound excludes a struct of the first type with all members optional against a mandatory member '
+                  '(recorded finding, counterexample compatible_sound_fails proved) and relative_resolution >= 1 (recorded finding, '
+                  'counterexample compatible_sound_fails_resolution proved); compatibleC_sound_partial additionally needs that the second '
+                  'type holds no LimitsType (plain tuple against LimitsType: recorded finding, compatibleC_sound_fails_limits proved; '
+                  'LimitsType against LimitsType: needs monotonicity of validate, not proved, judged by the monitors only); '
+                  'rebuildC_equiv_partial excludes LimitsType (its order test is not in the description: recorded finding, '
+                  'rebuildC_equiv_fails_limits proved). '
                   'Trusted: Lean kernel + axioms propext/Classical.choice/Quot.sound; LawfulFloatOps and CompatLaws for binary64 (both '
                   'proved for the exact carrier Rat); scaled limits grid aligned and within the grid-law region (|index| <= 2^31).',
     'trusted': [
@@ -39,12 +50,19 @@ META = {
         'json.dumps / json.loads of the datainfo (floats stay floats, integers stay integers, member order kept)',
         'id()-walk over DataType instances, propertyValues dicts, member dicts / tuples, optional lists, Enum and EnumMember objects: '
         'the heap model copyH = read, copy, build allocates new objects by construction',
+        'Python method resolution for the derived classes (none overrides compatible / export_datatype / __call__ / import_value; '
+        'LimitsType overrides validate and copy, TextType copy): compatibleC / cvalidate / copyC transcribe it, tied by correspondence',
+        'frappy.params.Parameter copies the declared datatype before Writable.__init__ compares value and target (the model applies copyC)',
+        'the proxy check is run on stand-ins for the proxy module and the SecopClient (parameters / commands dicts, a log collecting '
+        'the warnings); the remote datatypes are rebuilt from their description by the real get_datatype',
     ],
     'assumptions': ['generalConfig.lazy_number_validation is False (default)',
                     'scaled integers have grid-aligned limits (quantifier of the property)',
-                    'relative_resolution <= 1 on the second type of a pair (hypothesis ResLeOne of compatible_sound_partial; with '
-                    'relative_resolution=2 the real check is unsound: FloatRange(-10,100) vs FloatRange(5,200), value -1)',
-                    'datainfo given to get_datatype: enum values are JSON integers, scale is a JSON number, optional is a list'],
+                    'relative_resolution < 1 on the second type of a pair (hypothesis ResLeOne of compatible_sound_partial; recorded finding otherwise)',
+                    'datainfo given to get_datatype: enum values are JSON integers, scale is a JSON number, optional is a list',
+                    'the member of a LimitsType is a number kind (FloatRange, IntRange, ScaledInteger); TextType as constructed '
+                    '(minchars 0, not UTF-8)',
+                    'CommandType: argument and result are datatypes of the modelled kinds or None; copy / rebuild of a CommandType itself are not modelled'],
 }
 
 FMAX = sys.float_info.max
@@ -1362,7 +1380,7 @@ def run(ctx):
                 'boundary catalogues through both types (import_value / validate(previous)); copy() with the id()-walk of all mutable '
                 'objects, then mutation of every object of the copy; datainfo with unknown / dropped / null / wrong-kind keys through '
                 'get_datatype; ordered pairs derived per kind (wider, equal, narrower, shifted, cross kind, random) through compatible() '
-                'with witnesses of the first value set through the real validate of the second.  Non-trivial = a tree with a container '
+                'with witnesses of the first value set through the real validate of the second; derived classes (TextType, LimitsType, StatusType) planted at any depth in all three streams plus a systematic catalogue of every derived class against its plain class; pairs of commands; the proxy consistency check and Writable.__init__ on related datatypes.  Non-trivial = a tree with a container '
                 'or a non-default property; a pair whose verdict is pass, or which is refused below the root or by a limit')
     rng = ctx.rng
     big = ctx.tier == 'thorough' or ctx.escalated
